@@ -559,21 +559,7 @@ func (c *c03Run) judgeSrc(stream, src string, res c03Result) {
 
 	// ---- 3. nil slots of the real AST against the real compiler
 	if r.Parse == "ok" && r.Ast != "" {
-		slot := ""
-		if strings.HasPrefix(r.Ast, "EXPORT-PANIC") {
-			e.R.Mismatch(key, r.Ast, "exportable AST", "harness could not export the AST")
-		} else {
-			rep := strings.Split(e.O.Ask("C03", "ast", r.Ast), "\t")
-			switch rep[0] {
-			case "clean":
-				e.R.H("ast_nil_slot", "none")
-			case "nil":
-				slot = rep[1]
-				e.R.H("ast_nil_slot", slot)
-			default:
-				e.R.Mismatch(key, c03_short(r.Ast, 200), strings.Join(rep, " "), "oracle could not read the AST")
-			}
-		}
+		slot := c.astNilSlot(key, r.Ast)
 		switch {
 		case r.Compile == "panic":
 			finding := ""
@@ -594,6 +580,28 @@ func (c *c03Run) judgeSrc(stream, src string, res c03Result) {
 		e.R.H("recovered_panic_inputs", stream)
 		c.threadedSrc(stream, src)
 	}
+}
+
+// astNilSlot: the guard of C03-parser-nil-node — the model's nil-slot predicate (`illegalNil`) on
+// the exported real AST; "" when no required slot is nil.
+func (c *c03Run) astNilSlot(key, astText string) string {
+	e := c.e
+	slot := ""
+	if strings.HasPrefix(astText, "EXPORT-PANIC") {
+		e.R.Mismatch(key, astText, "exportable AST", "harness could not export the AST")
+	} else {
+		rep := strings.Split(e.O.Ask("C03", "ast", astText), "\t")
+		switch rep[0] {
+		case "clean":
+			e.R.H("ast_nil_slot", "none")
+		case "nil":
+			slot = rep[1]
+			e.R.H("ast_nil_slot", slot)
+		default:
+			e.R.Mismatch(key, c03_short(astText, 200), strings.Join(rep, " "), "oracle could not read the AST")
+		}
+	}
+	return slot
 }
 
 // threadedSrc re-runs a source as the body of a spawned function, waited for and not.
@@ -1355,6 +1363,7 @@ func c03_runC03(e *Env) {
 		"in const / var / := / expression statement / const inside a function / return value / list item; whole source pipeline, value or error against the model's `declRun`. " +
 		"A case is distinct by its bytes; a source case is non-trivial when the parser got past the first token (parse ok, or the error position is after the first token); " +
 		"script / heap / VM cases are non-trivial when they call at least one builtin or operator on a container"
+	e.R.Rule += "." + c03FrontRule
 	c := &c03Run{e: e}
 	workers := 4
 	nValid, nMut, nSoup, nBytes, nHeap, nScript := 2500, 6000, 7000, 3500, 1500, 400
@@ -1378,6 +1387,12 @@ func c03_runC03(e *Env) {
 	c.small = c03_newC03Pool(2, "-maxstack=67108864")
 	defer c.pool.close()
 	defer c.small.close()
+	if os.Getenv("VERIF_C03_ONLY") == "front" { // development aid: this stream alone (default: all streams)
+		fr := c.frontCases()
+		c.pool.wait()
+		fr.done()
+		return
+	}
 	for _, d := range c03Directed {
 		c.srcCase("directed", d.src)
 	}
@@ -1439,8 +1454,10 @@ func c03_runC03(e *Env) {
 			c.srcCase("repo", src)
 		}
 	}
+	fr := c.frontCases() // byte strings through lexer / parser / compiler (c03front.go)
 	c.pool.wait()
 	c.small.wait()
+	fr.done()
 	c.orderViolations()
 	ks := sortedKeys(e.R.FindingsConfirmed)
 	sort.Strings(ks)
@@ -1532,6 +1549,9 @@ type c03Resp struct {
 	Value    string   `json:"value,omitempty"`
 	Left     int      `json:"left,omitempty"` // goroutines started by the case that were still running when it answered
 	Ms       int64    `json:"ms"`
+
+	// mode front (c03front.go): one item per byte string of the batch
+	Front []c03FrontItem `json:"front,omitempty"`
 }
 
 func c03_short(s string, n int) string {
@@ -1599,6 +1619,8 @@ func c03Child(args []string) {
 			resp = c03RunLookup(req.Opt)
 		case "fileclose":
 			resp = c03RunFileClose(req.Opt)
+		case "front":
+			resp = c03RunFront(req.Opt)
 		}
 		resp.ID = req.ID
 		resp.Ms = time.Since(t0).Milliseconds()
